@@ -24,11 +24,11 @@ def specs(T):
     T.body_contains(D, 'biweight_location', 'if abs(result - initial) <= epsilon')
     nums(D, 'biweight_location', 8)
     # --- biweight midvariance
-    bv = nums(D, 'biweight_midvariance', 14)
-    T.body_contains(D, 'biweight_midvariance', 'return mad * 1.4826' if bv[5] == 1.4826 else 'return mad * %r' % bv[5])
+    bv = nums(D, 'biweight_midvariance', 13)
+    T.body_contains(D, 'biweight_midvariance', 'return mad * 1.4826' if bv[4] == 1.4826 else 'return mad * %r' % bv[4])
     T.body_contains(D, 'biweight_midvariance', 'w = d / max(c * mad, epsilon)')
     T.body_contains(D, 'biweight_midvariance',
-                    'n * (d_ ** 2 * (1 - w_) ** %d).sum() / ((1 - w_) * (1 - %d * w_)).sum() ** 2' % (bv[9], bv[12]))
+                    'n * (d_ ** 2 * (1 - w_) ** %d).sum() / ((1 - w_) * (1 - %d * w_)).sum() ** 2' % (bv[8], bv[11]))
     # --- weighted median
     wm = nums(D, 'weighted_median', 4)
     T.body_contains(D, 'weighted_median', 'midpoint = %r * weights.sum()' % wm[0])
@@ -76,9 +76,9 @@ def specs(T):
         ('BIVAR_C', 'Q', T.default(D, 'biweight_midvariance', 'c')),
         ('BIVAR_EPS', 'Q', T.default(D, 'biweight_midvariance', 'epsilon')),
         ('BIVAR_MASK_BOUND', 'Q', T.compare_with(D, 'biweight_midvariance', 'np.abs(w)', 'Lt')),
-        ('BIVAR_MAD_SCALE', 'Q', bv[5]),
-        ('BIVAR_NUM_POW', 'Z', bv[9]),
-        ('BIVAR_DEN_COEF', 'Q', bv[12]),
+        ('BIVAR_MAD_SCALE', 'Q', bv[4]),
+        ('BIVAR_NUM_POW', 'Z', bv[8]),
+        ('BIVAR_DEN_COEF', 'Q', bv[11]),
         ('WMEDIAN_HALF', 'Q', wm[0]),
         ('WMEDIAN_TOL_EPS', 'Q', sys.float_info.epsilon),
         ('MAD_DEFAULT', 'Q', mad[0]),
